@@ -302,6 +302,27 @@ def array_decoder(ctx, cm, rule, le, spec_rule=None):
                         {strip_sites(post), strip_sites(end)}:
                     if (c[1] == '==') == pol:
                         guard = True
+            # ... or, the loop having ended (offset < end is false), found
+            # "offset > end" false as well
+            if not guard:
+                ps_, es_ = strip_sites(post), strip_sites(end)
+
+                def rel(c):
+                    if kind(c) != 'cmp' or c[1] not in ('<', '>', '<=', '>='):
+                        return None
+                    a_, b_ = strip_sites(c[2]), strip_sites(c[3])
+                    if (a_, b_) == (ps_, es_):
+                        return c[1]
+                    if (a_, b_) == (es_, ps_):
+                        return {'<': '>', '>': '<', '<=': '>=',
+                                '>=': '<='}[c[1]]
+                    return None
+                not_above = any((rel(c) == '>' and not pol) or
+                                (rel(c) == '<=' and pol)
+                                for c, pol in p.cond)
+                # (that the loop runs while offset < end is the clause
+                # `end-bound` above: at its exit offset >= end)
+                guard = not_above and bound_ok
             raises = [q for q in allp if q.outcome == 'raise' and
                       kind(q.value) == 'call' and
                       q.value[1] == 'error.MarshallingError']
